@@ -27,10 +27,10 @@ def base_queries(tier):
                              unwind=max(33, k * r + 1, l + 2), witness=(l > 0), timeout=None if quick else 1200, flags=CADICAL),
                         core=(l, k, r) in ((2, 3, 2), (4, 3, 3)), family="base/upd", weight=2 + l * r))
     # gf_vect_mul_base: error path (no store) for every residue class sampled, success for len 0 and 32
-    bad = [1, 16, 31, 33, 48] if quick else [1, 2, 8, 16, 24, 31, 33, 48, 63, 65, 96]
+    bad = [1, 16, 31, 33, 48] if quick else [1, 2, 8, 16, 24, 31, 33, 48, 63, 65, 95, 97]
     for l in bad:
         qs.append(Query("base/vect_mul/badlen%d" % l, R,
-                        dict(harness=HB, units=[], hdefines=["H_MUL", "LEN=%d" % l], unwind=max(33, l + 2), witness=True),
+                        dict(harness=HB, units=[], hdefines=["H_MUL", "LEN=%d" % l], unwind=max(33, l + 2), witness=True, flags=CADICAL),
                         core=(l == 31), family="base/vect_mul", weight=2))
     for l in [0, 32] + ([] if quick else [64]):
         qs.append(Query("base/vect_mul/len%d" % l, R,
